@@ -1415,7 +1415,8 @@ def dms_post(c, p):
 
 
 Q(name="e2_datagrams_max_size", props=["C16", "C13"], func=r"datagrams\.rs:\d+:1: \d+:19>::max_size$",
-  pure=[r"current_mtu$", r"predict_1rtt_overhead$"], allowed_panics=r"attempt to compute",
+  pure=[r"current_mtu$", r"predict_1rtt_overhead$"], allowed_panics=r"attempt to compute", release_arith=True,
+  assume=lambda c, p: and_("true", *(["(bvuge %s (_ bv1200 16))" % x[2] for x in p.called(r"current_mtu$") if str(x[2]).startswith("|")] + [ule(x[2], bv(400)) for x in p.called(r"predict_1rtt_overhead$") if str(x[2]).startswith("|")])),
   functions=["Datagrams::max_size"], pre=lambda c: ule(c.inp("**_1.0.%d.%d#discr" % (c.field("connection/mod.rs", "Connection", "peer_params"), tp_field(c, "max_datagram_frame_size")), I64), bv(1)), post=dms_post,
   bounds="every MTU estimate, packet overhead and peer limit: None iff the peer did not advertise max_datagram_frame_size; otherwise min(peer limit - 9 (saturating), current_mtu - predicted 1-RTT overhead - 9), i.e. a frame with its largest length field always fits one packet on the current path and the peer's limit; current_mtu / predict_1rtt_overhead opaque",
   replay=("dgram_api_native", lambda m: [dict(peer=p_, len_=l, drop=0) for (p_, l) in ((65535, 100), (50, 41), (50, 42), (5, 0))]))
@@ -2621,3 +2622,157 @@ Q(name="e2_endpoint_retire_and_drained_events", props=["C09", "C08"], func=r"end
   functions=["Endpoint::handle_event (Drained, NeedIdentifiers and RetireConnectionId arms)"], pre=eh_pre, post=eh_post,
   bounds="every event and handle: Drained frees the slot of exactly the reporting handle and passes the connection stored there - and nothing else - to ConnectionIndex::remove, answering nothing; RetireConnectionId removes the CID stored under exactly the reported sequence number of exactly this connection, un-routes exactly that CID, and asks for one replacement CID exactly when the event allows it and a CID was removed; NeedIdentifiers issues exactly the requested number for this handle; Slab / HashMap / ConnectionIndex operations opaque",
   replay=("endpoint_retire_and_drained_native", lambda m: [dict(allow_more=0), dict(allow_more=1)]))
+
+
+# ------------------------------------------------------------------ C13 / C10: a close frame never outgrows the room it was given
+def _vsize(x):
+    return "(ite (bvult %s (_ bv64 64)) (_ bv1 64) (ite (bvult %s (_ bv16384 64)) (_ bv2 64) (ite (bvult %s (_ bv1073741824 64)) (_ bv4 64) (_ bv8 64))))" % (x, x, x)
+
+
+def ce_pre(c):
+    return and_(ule(bv(26), c.inp("_3", BV64)), ule(c.inp("_3", BV64), bv(4096)), ule(c.inp("*_1.1.1", BV64), bv(4096)), ule(c.inp("*_1.0.0", BV64), bv((1 << 62) - 1)))
+
+
+def ce_post(c, p):
+    st = p.p.state
+    if p.p.outcome != "return":
+        return "true"
+    wv = p.called(r"BufMutExt>::write_var$")
+    w = p.called(r"BufMutExt>::write$")
+    ps = p.called(r"BufMut>::put_slice$")
+    if len(wv) != 1 or len(w) != 2 or len(ps) != 1 or wv[0][1][1][0] != "val" or w[1][1][1] != ("agg", "*_1.0"):
+        return "false"
+    actual = wv[0][1][1][1].t
+    code = c.inp("*_1.0.0", BV64)
+    total = "(bvadd (_ bv1 64) %s %s %s)" % (_vsize(code), _vsize(actual), actual)
+    # type byte + error code + length + reason bytes fit the room; the reason is a prefix of the stored one
+    return and_(ule(total, c.inp("_3", BV64)), ule(actual, c.inp("*_1.1.1", BV64)))
+
+
+Q(name="e2_application_close_encode_budget", props=["C13", "C10"], func=r"frame\.rs:\d+:1: \d+:22>::encode$",
+  inline=[r"VarInt::size$"], pure=[r"VarInt::from_u64$"], allowed_panics=r"xxx", ignore_untranslatable=r"fmt::rt::Argument",
+  assume=lambda c, p: and_("true", *[eq(c.ex.read_key(p.p.state, x[2] + ".0", BV64).t, c.inp("*_1.1.1", BV64)) for x in p.called(r"Result::unwrap$")]),
+  functions=["ApplicationClose::encode", "VarInt::size"], pre=ce_pre, post=ce_post,
+  bounds="every application error code below 2^62, every reason length up to 4096, every room from 26 bytes (what the call site guarantees) to 4096: type byte + error code + reason length + reason bytes never exceed max_len, no arithmetic underflow, and the reason written is a prefix of the stored one; VarInt::from_u64(n).unwrap() is VarInt(n) (contract of the opaque std call); the BufMut writes themselves are opaque (their sizes are those of the QUIC varint encoding, restated in the oracle)",
+  replay=("frame_close_encode_budget_native", lambda m: [dict(code=m.get("|in:*_1.0.0|", 1 << 40), reason_len=m.get("|in:*_1.1.1|", 4000), max_len=m.get("|in:_3|", 1200)), dict(code=7, reason_len=4000, max_len=1200), dict(code=1 << 20, reason_len=10, max_len=64)]))
+
+
+# ------------------------------------------------------------------ C13: the CONNECTION_CLOSE frame is given exactly the room that is left in the packet when it is written (slice)
+def cb_post(c, p):
+    st = p.p.state
+    if p.p.outcome != "stop":
+        return "true"
+    enc = p.called(r"::encode(::<[^>]*>)?>?$")
+    if len(enc) > 1:
+        return "false"
+    out = []
+    ms = c.field("connection/packet_builder.rs", "PacketBuilder", "max_size")
+    for x in enc:
+        a = x[1]
+        if a[1][0] != "ref" or a[2][0] != "val":
+            return "false"
+        m = re.search(r"\|in:(\*_\d+\.%d)\|" % ms, a[2][1].t)
+        if not m:
+            return "false"
+        snap = _Snap(st, x[3])
+        len_now = c.ex.read_key(snap, _k(a[1][1]) + ".1", BV64).t            # Vec { buf, len }: what is in the packet buffer at this moment
+        out.append(eq(a[2][1].t, "(bvsub %s %s)" % (c.inp(m.group(1), BV64), len_now)))
+    return and_(*out) if out else "true"
+
+
+Q(name="e2_poll_transmit_close_budget_slice", props=["C13"], func=r"connection/mod\.rs:\d+:1: \d+:16>::poll_transmit$",
+  src="connection/mod.rs", within=r"^    pub fn poll_transmit\(", start_line=[r"if !self\.spaces\[space_id\]\.pending_acks\.ranges\(\)\.is_empty\(\) \{", r"(?#after)// have gotten any other ACK for the data earlier on\."],
+  end_line=[r"if space_id == self\.highest_space \{"],
+  allowed_panics=r".", check_stop=True, inline=[r"State::is_closed$"], ignore_untranslatable=r"fmt::rt::Argument",
+  functions=["Connection::poll_transmit (slice: the CONNECTION_CLOSE branch, from the ACK that precedes the close frame to the frame itself)"], pre=lambda c: "true", post=cb_post,
+  bounds="the close branch from an ARBITRARY state: whichever close frame is written (the stored reason, APPLICATION_ERROR before 1-RTT, NO_ERROR when draining), its encoder is told max_len = builder.max_size - buf.len() with buf.len() taken AT THAT MOMENT - after the ACK frame that may precede it - so that frame plus everything before it fits the packet; that the encoders respect max_len is the Kani obligation frame_close_encode_budget; the unreachable!() formatting path is outside the claim",
+  replay=("conn_close_budget_native", lambda m: [dict(reason_len=4000, acks=1, code=7), dict(reason_len=4000, acks=0, code=7), dict(reason_len=16, acks=1, code=7), dict(reason_len=4000, acks=1, code=1 << 40)]))
+
+
+# ------------------------------------------------------------------ C09 / C08: the endpoint's per-connection CID table starts consistent (sequence numbers 0.. without gaps or reuse)
+def ac_post(c, p):
+    st = p.p.state
+    if p.p.outcome != "stop":
+        return "true"
+    ins = p.called(r"HashMap.*::insert$")
+    slab = p.called(r"Slab.*::insert(_at)?$")
+    if not ins or len(slab) != 1 or slab[0][1][-1][0] != "agg":
+        return "false"
+    meta = _k(slab[0][1][-1][1])
+    snap = _Snap(st, slab[0][3])
+    issued = c.ex.read_key(snap, meta + ".%d" % c.field("endpoint.rs", "ConnectionMeta", "cids_issued"), BV64).t
+    out = [eq(issued, bv(len(ins)))]                 # the next sequence number to hand out is the number of CIDs recorded
+    for i, x in enumerate(ins):
+        if x[1][1][0] != "val" or x[1][0] != ins[0][1][0]:
+            return "false"
+        out.append(eq(x[1][1][1].t, bv(i)))          # recorded under sequence numbers 0, 1, .. in order
+    return and_(*out)
+
+
+Q(name="e2_endpoint_add_connection_cids_slice", props=["C09", "C08"], func=r"endpoint\.rs[^>]*>::add_connection$",
+  src="endpoint.rs", within=r"^    fn add_connection\(", start_line=[r"let mut cids_issued = 0;", r"(?#before)let mut loc_cids = FxHashMap::default\(\);"],
+  end_line=[r"self\.index\.insert_conn\(addresses, loc_cid, ch, side\);"],
+  allowed_panics=r".", check_stop=True,
+  functions=["Endpoint::add_connection (slice: from the creation of the CID table to the insertion of the ConnectionMeta)"], pre=lambda c: "true", post=ac_post,
+  bounds="with or without a preferred-address CID: the CIDs known at creation are recorded under sequence numbers 0, 1, .. and the ConnectionMeta stored in the slab has cids_issued equal to their number - so the first identifier issued later (send_new_identifiers) cannot reuse a sequence number and overwrite a recorded CID, which would then never be un-routed",
+  replay=("endpoint_add_connection_cids_native", lambda m: [dict(pref=0), dict(pref=1)]))
+
+
+# ------------------------------------------------------------------ C09 / C08: a drained connection's reset token is un-registered under the address it was registered with
+def cir_post(c, p):
+    st = p.p.state
+    if p.p.outcome != "return":
+        return "true"
+    rt = "*_2.%d" % c.field("endpoint.rs", "ConnectionMeta", "reset_token")
+    rm = p.called(r"ResetTokenTable::remove$")
+    had = eq(c.inp(rt + "#discr", I64), bv(1))
+    if not rm:
+        return not_(had)
+    a = rm[0][1]
+    table = "*_1.%d" % c.field("endpoint.rs", "ConnectionIndex", "connection_reset_tokens")
+    if len(rm) != 1 or a[0] != ("ref", table) or a[1] != ("agg", rt + "@Some.0.0") or a[2] != ("agg", rt + "@Some.0.1"):
+        return "false"
+    return had
+
+
+Q(name="e2_connection_index_remove_reset_token_slice", props=["C09", "C08"], func=r"endpoint\.rs[^>]*>::remove\(_1: &mut ConnectionIndex",
+  src="endpoint.rs", within=r"^    fn remove\(&mut self, conn: &ConnectionMeta\)", start_line=[r"if let Some\(\(remote, token\)\) = conn\.reset_token \{", r"(?#after)\.remove\(&conn\.addresses\.remote\);"],
+  allowed_panics=r".", check_stop=True,
+  functions=["ConnectionIndex::remove (slice: the reset-token part, after the loop over the local CIDs)"], pre=lambda c: "true", post=cir_post,
+  bounds="every ConnectionMeta: when the connection has a reset token registered, exactly the stored (address, token) pair - the address it was registered under, which after a migration is not the connection's original address - is removed from the reset-token table; nothing is removed otherwise",
+  replay=("endpoint_reset_token_event_native", lambda m: [dict(same_addr=0), dict(same_addr=1)]))
+
+
+# ------------------------------------------------------------------ C16: DatagramsUnblocked is emitted when a blocked sender's queue was (partly) sent in this packet - whichever iteration sent it (slice)
+def dl_post(c, p):
+    st = p.p.state
+    if p.p.outcome != "stop":
+        return "true"
+    flag = c.fn.debug["sent_datagrams"][0]
+    sent_before = c.inp(flag, BOOL)                      # what earlier iterations of the loop established
+    wr = p.called(r"DatagramState::write$")
+    if len(wr) > 1:
+        return "false"
+    wrote = c.ex.read_key(st, wr[0][2], BOOL).t if wr else "false"
+    sent = or_(sent_before, wrote)
+    if "loop back-edge" in str(p.p.detail):
+        # another iteration follows: the flag carries what happened so far
+        return eq(c.ex.read_key(st, flag, BOOL).t, sent)
+    blocked_key = "*_1.%d.%d" % (c.field("connection/mod.rs", "Connection", "datagrams"), c.field("connection/datagrams.rs", "DatagramState", "send_blocked"))
+    ev = [x for x in p.called(r"VecDeque.*::push_back") if x[1][0][0] == "ref" and str(x[1][0][1]).endswith(".%d" % c.field("connection/mod.rs", "Connection", "events"))]
+    if len(ev) > 1:
+        return "false"
+    if ev:
+        snap = _Snap(st, ev[0][3])
+        was_blocked = c.ex.read_key(snap, blocked_key, BOOL).t
+        return and_(was_blocked, sent, not_(c.ex.read_key(st, blocked_key, BOOL).t))
+    return not_(and_(c.ex.read_key(st, blocked_key, BOOL).t, sent))
+
+
+Q(name="e2_populate_packet_datagram_loop_slice", props=["C16"], func=r"connection/mod\.rs:\d+:1: \d+:16>::populate_packet$",
+  src="connection/mod.rs", within=r"^    fn populate_packet\(", start_line=[r"while buf\.len\(\) \+ Datagram::SIZE_BOUND < max_size && space_id == SpaceId::Data \{", r"(?#after)let mut sent_datagrams = false;"],
+  end_line=[r"while let Some\(remote_addr\) = space\.pending\.new_tokens\.pop\(\) \{"],
+  allowed_panics=r".", check_stop=True, loop_is_stop=True,
+  functions=["Connection::populate_packet (slice: one iteration of the DATAGRAM loop and the unblocking that follows it)"], pre=lambda c: "true", post=dl_post,
+  bounds="one iteration of the DATAGRAM loop from an ARBITRARY state, `sent_datagrams` included (so: after any number of earlier iterations), plus the code after the loop: the flag that goes into the next iteration is `a datagram was written in this packet so far`, and when the loop ends - because the packet is full or because the next datagram does not fit - Event::DatagramsUnblocked is queued (and send_blocked cleared) exactly when the sender was blocked and at least one datagram went into this packet; DatagramState::write opaque (e2_dgram_write)",
+  replay=("conn_datagram_unblock_native", lambda m: [dict(n=1), dict(n=3)]))
